@@ -309,7 +309,24 @@ def run_case(case, res):
                     frozen = json.dumps(dl, sort_keys=True, default=repr)
                     for variant in ("direct", "json"):
                         doc = dl if variant == "direct" else json.loads(json.dumps(dl))
-                        t2 = attempt(lambda: Tree.from_dict(json.loads(json.dumps(doc)) if variant == "direct" and style == 2 else doc, mapper=deser_f) if mapper_used else Tree.from_dict(doc))
+                        seen_parents = []
+
+                        def deser_rec(parent, item, _f=deser_f):
+                            seen_parents.append(parent)
+                            return _f(parent, item)
+
+                        t2 = attempt(lambda: Tree.from_dict(json.loads(json.dumps(doc)) if variant == "direct" and style == 2 else doc, mapper=deser_rec) if mapper_used else Tree.from_dict(doc))
+                        if mapper_used and not isinstance(t2, tuple):
+                            # the mapper is told the parent node of the node being created (the system root for top nodes)
+                            built = list(t2)
+                            if len(seen_parents) != len(built):
+                                bad.append(f"from_dict called the mapper {len(seen_parents)} times for {len(built)} nodes")
+                            else:
+                                for nd, par in zip(built, seen_parents):
+                                    want = nd.parent if nd.parent is not None else t2.system_root
+                                    if par is not want:
+                                        bad.append(f"from_dict passed {par!r} as parent to the mapper for a child of {want!r}")
+                                        break
                         res.count("round_trips")
                         if isinstance(t2, tuple):
                             bad.append(f"from_dict ({variant}) raised {t2!r}")
